@@ -114,9 +114,45 @@ let rec replace_at l off bytes =
   | [], _ -> failwith "offset"
 let rec take k l = if k = 0 then [] else match l with [] -> [] | x :: r -> x :: take (k - 1) r
 
+(* ---- session map format ---- *)
+let serr_name = function
+  | SPack -> "err:pack" | SData -> "err:data" | SKeyLong -> "err:keylong" | SValLong -> "err:vallong"
+  | SFuel -> "MODEL-FUEL" | SOob -> "MODEL-OOB"
+let expand (t : string) : n list =
+  if String.length t > 0 && t.[0] = '*' then List.init (int_of_string (String.sub t 1 (String.length t - 1))) (fun _ -> byte_tab.(0x78))
+  else bytes_of_hex t
+let parse_entries (s : string) : ((n list * bool) * n list) list =
+  let body = String.sub s 1 (String.length s - 2) in
+  if body = "" then [] else
+  List.map (fun item ->
+    match String.split_on_char ':' item with
+    | [k; e; v] -> ((expand k, e = "1"), expand v)
+    | _ -> failwith "entry") (String.split_on_char ',' body)
+(* std::map order = unsigned byte order of the keys = order of their hex text ("-" for the empty key sorts first) *)
+let print_entries (l : ((n list * bool) * n list) list) : string =
+  let items = List.map (fun ((k, e), v) -> (hex_of_bytes k, (if e then "1" else "0") ^ ":" ^ hex_of_bytes v)) l in
+  let items = List.sort (fun (a, _) (b, _) -> compare a b) items in
+  "[" ^ String.concat "," (List.map (fun (k, r) -> k ^ ":" ^ r) items) ^ "]"
+let sess_load_text (buf : n list) : string =
+  match load_data buf with
+  | SErr e -> serr_name e
+  | SOk l -> "ok " ^ print_entries (sess_map l)
+
 let () = main_loop (fun toks ->
   jlog := [];
   match toks with
+  | ["sd"; h; _] -> "sd " ^ sess_load_text (bytes_of_hex h)
+  | ["ss"; t; _] ->
+      let m = parse_entries t in
+      (match save_data m with
+       | SErr e -> "ss " ^ serr_name e
+       | SOk d ->
+           let want = print_entries m in
+           if m = [] then "ss D=none ok [] eq=1"
+           else (match load_data d with
+                 | SErr e -> "ss D=" ^ hex_of_bytes d ^ " " ^ serr_name e
+                 | SOk l -> let got = print_entries (sess_map l) in
+                            "ss D=" ^ hex_of_bytes d ^ " ok " ^ got ^ " eq=" ^ string_of_bool (got = want)))
   | ["ld"; _; spec; h; jt] ->
       let r = ld_text false (make_json_parse jt) (parse_spec spec) (bytes_of_hex h) in
       "ld " ^ r ^ " " ^ jlog_text ()
